@@ -2,7 +2,7 @@
    accepts. [sat] (Model/SchemaSat.v) evaluates the model schema; [run] is the validator. *)
 From Coq Require Import ZArith List Bool String Lia QArith Btauto.
 From KV Require Import Base.PyVal Base.Prims Model.Validator Model.Sem Model.Schema Model.SchemaWf
-     Model.SchemaSat Proofs.EqbSound Proofs.VInd Proofs.SchemaP Proofs.Scalar Proofs.Collections Proofs.Records.
+     Model.SchemaSat Proofs.EqbSound Proofs.VInd Proofs.SchemaP Proofs.Scalar Proofs.Collections Proofs.Records Proofs.Wrappers.
 Import ListNotations.
 Open Scope Z_scope.
 
@@ -709,6 +709,32 @@ Section Frag.
     | _ => None
     end.
 
+  (* JSON kinds: 0 null, 1 boolean, 2 integer, 3 float, 4 string, 5 array, 6 object *)
+  Definition kind_of (x : pyval) : nat :=
+    match x with
+    | VNone => 0 | VBool _ => 1 | VInt _ => 2 | VFloat _ => 3 | VStr _ => 4 | VList _ => 5 | VDict _ => 6
+    | _ => 7
+    end%nat.
+
+  (* the kinds a validator of the fragment can accept (an over-approximation read off its shape) *)
+  Fixpoint jk (v : validator) : list nat :=
+    match v with
+    | Scalar KStr _ _ _ _ => [4%nat] | Scalar KInt _ _ _ _ => [2%nat] | Scalar KFloat _ _ _ _ => [3%nat] | Scalar KBool _ _ _ _ => [1%nat]
+    | EqualsV m _ => [kind_of m]
+    | IsDictV | MapV _ _ _ _ _ | DictAnyV _ _ _ _ | RecordV _ _ _ _ _ | ClassV _ _ _ _ _ _ _ => [6%nat]
+    | ListV _ _ _ _ | UTupleV _ _ _ _ | NTupleV _ _ _ => [5%nat]
+    | KeyNotRequired inner | CacheV inner => jk inner
+    | OptionalV _ inner => 0%nat :: jk inner
+    | UnionV vs => flat_map jk vs
+    | _ => []
+    end.
+
+  Fixpoint nodup_nat (l : list nat) : bool :=
+    match l with
+    | [] => true
+    | a :: r => negb (existsb (Nat.eqb a) r) && nodup_nat r
+    end.
+
   Fixpoint frag (v : validator) : bool :=
     match v with
     | Scalar k None [] ps [] => scalar_ok k ps
@@ -736,6 +762,8 @@ Section Frag.
     | KeyNotRequired inner => frag inner
     | OptionalV (NoneV None) inner => frag inner
     | CacheV inner => frag inner
+    (* a union whose variants accept pairwise different JSON kinds: exactly-one (oneOf) and first-match coincide *)
+    | UnionV vs => forallb frag vs && nodup_nat (flat_map jk vs)
     | _ => false
     end.
 
@@ -751,6 +779,7 @@ Section Frag.
     | KeyNotRequired inner => S (vheight inner)
     | OptionalV _ inner => S (vheight inner)
     | CacheV inner => S (vheight inner)
+    | UnionV vs => S (list_max (map vheight vs))
     | _ => O
     end.
 
@@ -897,6 +926,110 @@ Section Frag.
                       (lit "required", JArr (map JStr r)); (lit "properties", JObj pp)])
           with (object_schema st r pp)
     end.
+
+  (* ---------- unions of variants that accept pairwise different JSON kinds ---------- *)
+
+  Lemma nodup_nat_disjoint l1 l2 a : nodup_nat (l1 ++ l2) = true -> In a l1 -> In a l2 -> False.
+  Proof.
+    induction l1 as [|b l1 IH]; intros H H1 H2; [destruct H1|].
+    cbn [app nodup_nat] in H. apply andb_prop in H. destruct H as [Hb Hr].
+    destruct H1 as [->|H1]; [|exact (IH Hr H1 H2)].
+    apply negb_true_iff in Hb. assert (Ht : existsb (Nat.eqb a) (l1 ++ l2) = true).
+    { apply existsb_exists. exists a. split; [apply in_or_app; right; exact H2 | apply Nat.eqb_refl]. }
+    congruence.
+  Qed.
+
+  Lemma nodup_nat_tail l1 l2 : nodup_nat (l1 ++ l2) = true -> nodup_nat l2 = true.
+  Proof.
+    induction l1 as [|b l1 IH]; intros H; [exact H|]. cbn [app nodup_nat] in H. apply andb_prop in H. apply IH. apply H.
+  Qed.
+
+  (* a validator of the fragment accepts JSON values of its own kinds only *)
+  Lemma valid_kind : forall v, frag v = true ->
+      forall n x w, is_json x = true -> run E Sync n v x = OValid w -> In (kind_of x) (jk v).
+  Proof.
+    induction v using validator_ind'; intros Hf n x w Hx Hr; cbn [frag] in Hf; try discriminate;
+      (destruct n as [|n]; [discriminate|]); cbn [run step] in Hr; cbn [jk].
+    - (* Scalar *)
+      destruct co; try discriminate. destruct pre; try discriminate. destruct aps; try discriminate.
+      apply scalar_accept in Hr. destruct Hr as [_ [y [Hg _]]]. unfold gate in Hg.
+      destruct (exact_type x (ktype k)) eqn:Ex; [|discriminate].
+      unfold scalar_ok in Hf. apply andb_prop in Hf. destruct Hf as [Hf _]. apply andb_prop in Hf. destruct Hf as [Hk _].
+      destruct k; try discriminate Hk; destruct x; cbn in Ex; try discriminate Ex; left; reflexivity.
+    - (* EqualsV *)
+      destruct pre; try discriminate. apply equals_accept in Hr. destruct Hr as [Ex _].
+      destruct (val_kind m) as [k|] eqn:Ek; [|discriminate].
+      destruct m; try discriminate Ek; destruct x; cbn in Ex; try discriminate Ex; left; reflexivity.
+    - (* IsDictV *)
+      destruct x; try discriminate Hx; try (left; reflexivity); exfalso; cbn in Hr; discriminate Hr.
+    - (* ListV *)
+      destruct aps; try discriminate. destruct co; try discriminate.
+      destruct x; try discriminate Hx; try (left; reflexivity); exfalso; cbn in Hr; discriminate Hr.
+    - (* UTupleV *)
+      destruct aps; try discriminate. destruct co as [[]|]; try discriminate.
+      destruct x; try discriminate Hx; try (left; reflexivity); exfalso; cbn in Hr; discriminate Hr.
+    - (* NTupleV *)
+      destruct vobj; try discriminate. destruct co as [[]|]; try discriminate.
+      destruct x; try discriminate Hx; try (left; reflexivity); exfalso; cbn in Hr; discriminate Hr.
+    - (* MapV *)
+      destruct x; try discriminate Hx; try (left; reflexivity); exfalso;
+        destruct v1; try discriminate Hf; destruct k; try discriminate Hf; destruct co0; try discriminate Hf;
+        destruct pre; try discriminate Hf; destruct ps0; try discriminate Hf; destruct aps0; try discriminate Hf;
+        destruct aps; try discriminate Hf; destruct co; try discriminate Hf; cbn in Hr; discriminate Hr.
+    - (* RecordV *)
+      destruct vobj; try discriminate. destruct avobj; try discriminate.
+      destruct x; try discriminate Hx; try (left; reflexivity); exfalso; cbn in Hr; discriminate Hr.
+    - (* DictAnyV *)
+      destruct vobj; try discriminate. destruct avobj; try discriminate.
+      destruct x; try discriminate Hx; try (left; reflexivity); exfalso; cbn in Hr; discriminate Hr.
+    - (* ClassV *)
+      destruct vobj; try discriminate. destruct avobj; try discriminate. destruct co; try discriminate.
+      destruct x; try discriminate Hx; try (left; reflexivity); exfalso; destruct rk; cbn in Hr; discriminate Hr.
+    - (* UnionV *)
+      apply andb_prop in Hf. destruct Hf as [Hfs _].
+      apply union_accept in Hr. destruct Hr as [pre [v0 [post [-> [Hv _]]]]].
+      apply in_flat_map. exists v0. split; [apply in_or_app; right; left; reflexivity|].
+      rewrite Forall_forall in H. rewrite forallb_forall in Hfs.
+      assert (Hin : In v0 (pre ++ v0 :: post)) by (apply in_or_app; right; left; reflexivity).
+      apply (H v0 Hin (Hfs v0 Hin) n x w Hx Hv).
+    - (* OptionalV *)
+      destruct v1; try discriminate. destruct co; try discriminate.
+      apply union_accept in Hr. destruct Hr as [pre [v0 [post [Hvs [Hv _]]]]].
+      destruct pre as [|p0 pre]; cbn [app] in Hvs.
+      + injection Hvs as <- _. destruct n; [discriminate|]. cbn [run step] in Hv. unfold none_body in Hv.
+        destruct x; try discriminate. left; reflexivity.
+      + injection Hvs as _ Hrest. destruct pre; cbn [app] in Hrest; [|destruct pre; discriminate].
+        injection Hrest as <- _. right. apply (IHv2 Hf n x w Hx Hv).
+    - (* KeyNotRequired *)
+      unfold knr_body in Hr. destruct (run E Sync n v x) eqn:Er; try discriminate. apply (IHv Hf n x w0 Hx Er).
+    - (* CacheV *) apply (IHv Hf n x w Hx Hr).
+  Qed.
+
+  Lemma union_agree_excl n x : is_json x = true -> forall vs js self,
+      Forall2 (child_agree n) vs js ->
+      (forall l1 a l2, vs = l1 ++ a :: l2 -> (exists w, run E Sync n a x = OValid w) ->
+                       forall b, In b l2 -> forall w', run E Sync n b x <> OValid w') ->
+      agree (Nat.eqb (List.length (filter (fun s1 => sat s1 x) js)) 1) (union_body (run E Sync n) self vs x).
+  Proof.
+    intros Hx vs js self HF. induction HF as [|v j vs js Hvj HF IH]; intros Hex.
+    - cbn. eexists; reflexivity.
+    - pose proof (Hvj x Hx) as Ha. cbn [filter]. destruct (sat j x) eqn:Ej; cbn [agree] in Ha.
+      + destruct Ha as [w Hw].
+        assert (Hnone : filter (fun s1 => sat s1 x) js = []).
+        { assert (Hb : forall b, In b vs -> forall w', run E Sync n b x <> OValid w').
+          { intros b Hb. apply (Hex [] v vs eq_refl (ex_intro _ w Hw) b Hb). }
+          clear - HF Hb Hx. induction HF as [|v0 j0 vs js Hv0 HF IH]; [reflexivity|].
+          cbn [filter]. pose proof (Hv0 x Hx) as Ha0. destruct (sat j0 x); cbn [agree] in Ha0.
+          - destruct Ha0 as [w0 Hw0]. exfalso. apply (Hb v0 (or_introl eq_refl) w0 Hw0).
+          - apply IH. intros b Hin. apply Hb. right. exact Hin. }
+        rewrite Hnone. cbn [List.length Nat.eqb agree]. unfold union_body. cbn [map run_calls]. rewrite Hw. cbn. eexists; reflexivity.
+      + destruct Ha as [i Hi].
+        assert (IH' := IH (fun l1 a l2 Heq => Hex (v :: l1) a l2 (f_equal (cons v) Heq))).
+        unfold union_body in *. cbn [map run_calls]. rewrite Hi. cbn [collect_union].
+        destruct (collect_union (run_calls true (run E Sync n) (map (fun v0 => (v0, x)) vs))) as [o|errs];
+          destruct (Nat.eqb (List.length (filter (fun s1 => sat s1 x) js)) 1); cbn [agree] in *;
+            try exact IH'; destruct IH' as [z Hz]; try discriminate; eexists; reflexivity.
+  Qed.
 
   Theorem frag_agree : forall v,
       frag v = true -> forall n, (vheight v < n)%nat -> forall x, is_json x = true ->
@@ -1238,6 +1371,28 @@ Section Frag.
       destruct (keys_ref_agree (run E Sync n) (ClassV rk c schema None None strict None) AbsOmit kvs (VDict kvs) Hx schema js HFk) as [ws [errs [K1 K2]]].
       rewrite K1, <- K2. destruct errs; cbn [agree obj_stage]; [|eexists; reflexivity].
       destruct rk; eexists; reflexivity.
+    - (* UnionV *)
+      apply andb_prop in Hf. destruct Hf as [Hfs Hnd]. cbn [vheight] in Hn.
+      assert (HA : Forall agrees vs).
+      { rewrite Forall_forall in H |- *. intros f Hin m Hm y Hy. rewrite forallb_forall in Hfs. apply (H f Hin (Hfs f Hin) m Hm y Hy). }
+      assert (Hh : forall f, In f vs -> (vheight f < n)%nat).
+      { intros f Hin. apply (list_max_lt (map vheight vs) n); [lia | apply in_map; exact Hin]. }
+      destruct (many_of_agree n vs HA Hh) as [js [Ejs [Hlen HF2]]].
+      change (to_schema text_of named (UnionV vs))
+        with (pbind (many_of (to_schema text_of named) vs) (fun js0 => Ok (JObj [(lit "oneOf", JArr js0)]))).
+      rewrite Ejs. cbn [pbind]. eexists; split; [reflexivity|].
+      cbn [SchemaSat.sat]. unfold nullable. rewrite obj_get_none by reflexivity. cbn [andb orb forallb].
+      unfold entry_sat. kwd. rewrite andb_true_r.
+      apply (union_agree_excl n x Hx vs js (UnionV vs) HF2).
+      intros l1 a l2 Heq [w Hw] b Hb w' Hw'.
+      rewrite forallb_forall in Hfs.
+      assert (Ha : In a vs) by (rewrite Heq; apply in_or_app; right; left; reflexivity).
+      assert (Hbv : In b vs) by (rewrite Heq; apply in_or_app; right; right; exact Hb).
+      pose proof (valid_kind a (Hfs a Ha) n x w Hx Hw) as Ka.
+      pose proof (valid_kind b (Hfs b Hbv) n x w' Hx Hw') as Kb.
+      rewrite Heq in Hnd. rewrite flat_map_app in Hnd. apply nodup_nat_tail in Hnd. cbn [flat_map] in Hnd.
+      apply (nodup_nat_disjoint (jk a) (flat_map jk l2) (kind_of x) Hnd Ka).
+      apply in_flat_map. exists b. split; assumption.
     - (* OptionalV *)
       destruct v1; try discriminate. destruct co; try discriminate.
       cbn [vheight] in Hn. destruct n as [|n]; [lia|].
